@@ -27,7 +27,19 @@ Correspondence (this file + impl/impl_c19.py + coq/model/FmtSpecTie.v):
      of pipes and one pseudo-terminal (window size = the terminal size of the case); the
      geometry MEASURED on the returned string, the outcome class and equality with the
      explicit-parameter route are judged inside Coq against the model in that environment
-     (FmtEnv.impl_format) and against the documented meaning (FmtEnv.geom_ok).
+     (FmtEnv.impl_format) and against the documented meaning (FmtEnv.geom_ok);
+  5. denotation ON THE OUTPUT (impl/impl_c19den.py + coq/model/FmtDen.v, FmtDenTie.v): what an
+     accepted specifier denotes is judged on what the returned string SHOWS, against the
+     documentation, in the surroundings the documentation mentions: (a) the transparency field on
+     a terminal whose background colour is known / undetermined, images with opaque, partially
+     and fully transparent pixels: the pixels the block text displays (decoded with the shared
+     lexer) and, for every style, equality of the output with that of the specifiers the
+     documentation makes equivalent there (`##` = `#<terminal background>` | `#000000`, hex case,
+     trailing zeros of a threshold); (b) the style `method` field on ANIMATED file sources
+     (APNG / WebP / GIF, from_file / PIL image with a file name, read-from-file policy, fitting
+     and down-scaled sizes, set_render_method) at several seek positions: every transmitted
+     picture is decoded: frames held, frame shown; equality with the frame of
+     ImageIterator(image, 1, spec).
 """
 from __future__ import annotations
 
@@ -37,11 +49,11 @@ import re
 import core
 
 LEVEL = "proof"
-EXTRA_TARGETS = ["model/FmtSpecTie.vo", "model/FmtEnvTie.vo"]
+EXTRA_TARGETS = ["model/FmtSpecTie.vo", "model/FmtEnvTie.vo", "model/FmtDenTie.vo"]
 STYLES = ["block", "kitty", "iterm2"]
 COQ_STYLE = {"block": "Block", "kitty": "Kitty", "iterm2": "ITerm2"}
 HEADER = ("From Coq Require Import List NArith ZArith.\nImport ListNotations.\n"
-          "From TI Require Import lib.Re model.FmtSpec model.FmtSpecTie model.FmtEnv model.FmtEnvTie.\n"
+          "From TI Require Import lib.Re model.FmtSpec model.FmtSpecTie model.FmtEnv model.FmtEnvTie model.FmtDen model.FmtDenTie.\n"
           "Open Scope nat_scope.\n")
 TERMS = [[80, 30], [100, 50], [12, 5], [3, 3]]
 
@@ -642,6 +654,305 @@ def env_part(ctx, out):
     return {(j["style"], sp, "".join(map(str, j["env"])), tuple(j["term"]), rt) for j, sp, rt, _ in cases}
 
 
+# --------------------------------------------------------------------- denotation on the output
+
+DEN_ALPHAS = [0, 1, 20, 39, 41, 64, 90, 127, 128, 129, 200, 254, 255]
+COQ_BOOL = ("false", "true")
+
+
+def hex6(rgb):
+    return "%02x%02x%02x" % tuple(rgb)
+
+
+def alpha_tails(rng, bg):
+    """(tail, [tails the documentation makes equivalent on a terminal with background bg])"""
+    eff = hex6(bg) if bg is not None else "000000"
+    rnd = "".join(rng.choice("0123456789abcdefABCDEF") for _ in range(6))
+    thr = rng.choice(["5", "25", "0", "999", "1", "75", str(rng.randrange(0, 1000))])
+    return [
+        ("##", ["#" + eff, "#" + eff.upper()]),
+        ("#" + eff, ["##"]),
+        ("#" + rnd, ["#" + rnd.swapcase()]),
+        ("#ffffff", ["#FFFFFF"] + (["##"] if eff == "ffffff" else [])),
+        ("#." + thr, ["#." + thr + "0", "#." + thr + "000"]),
+        ("#", []),
+        ("", []),
+    ]
+
+
+def gen_pixels(rng, style):
+    w = rng.choice([1, 2, 3])
+    rows = rng.choice([2, 2, 4])
+    px = []
+    for _ in range(w * rows):
+        r = rng.random()
+        a = rng.choice([90, 127, 128, 200]) if r < 0.4 else rng.choice(DEN_ALPHAS)
+        px.append([rng.choice([0, 50, 200, 255, rng.randrange(256)]), rng.choice([0, 100, 255, rng.randrange(256)]),
+                   rng.choice([0, 50, 255, rng.randrange(256)]), a])
+    px[rng.randrange(len(px))] = [200, 100, 50, 128]      # always one clearly translucent, saturated pixel
+    return w, px
+
+
+def den_alpha_jobs(ctx):
+    rng = ctx.rng
+    jobs = []
+    heads = ["1.1", "<1.^1", ">1._1", "|1.-1"]
+    stails = {"block": [""], "kitty": ["", "+W", "+L", "+Wz1c9"], "iterm2": ["", "+W", "+L", "+Wm1c0"]}
+    reps = 1 if ctx.quick else 12
+    for st in STYLES:
+        for _ in range(reps):
+            for bg in (None, [rng.randrange(256) for _ in range(3)], rng.choice([[0, 0, 0], [255, 255, 255]])):
+                for tail, eq_tails in alpha_tails(rng, bg):
+                    w, px = gen_pixels(rng, st)
+                    head, stl = rng.choice(heads), rng.choice(stails[st])
+                    jobs.append({"kind": "alpha", "style": st, "bg": bg, "w": w, "pixels": px,
+                                 "spec": head + tail + stl, "eqs": [head + t + stl for t in eq_tails]})
+    return jobs
+
+
+def acase_term(job, r):
+    def nl(s):
+        return nlist([ord(c) for c in s])
+    eqs = "[" + "; ".join(nl(s) for s in job["eqs"]) + "]" if job["eqs"] else "(@nil (list N))"
+    bg = "None" if job["bg"] is None else "(Some %d%%Z)" % int(hex6(job["bg"]), 16)
+    shown = r.get("px") or []
+    pairs = []
+    for p, o in zip(job["pixels"], shown):
+        pairs.append("({| p_r := %d; p_g := %d; p_b := %d; p_a := %d |}, %s)" % (
+            p[0], p[1], p[2], p[3], "None" if o is None else "Some (%d, %d, %d)%%Z" % tuple(o)))
+    px = "[" + "; ".join(pairs) + "]" if pairs else "(@nil (px * shown))"
+    return ("{| a_sty := %s; a_spec := %s; a_eqs := %s; a_bg := %s; a_kind := %d; a_px := %s; a_same := %s |}" % (
+        COQ_STYLE[job["style"]], nl(job["spec"]), eqs, bg, r["k"], px, nlist(r.get("same", []), "Z")))
+
+
+def check_alpha(jobs, tag="c19da"):
+    if not jobs:
+        return [], [], []
+    res = core.run_impl_parallel("impl_c19den.py", jobs, chunk=max(1, (len(jobs) + core.NCPU - 1) // core.NCPU))
+    errors = []
+    for j, r in zip(jobs, res):
+        if "error" in r or r.get("err"):
+            errors.append(f"denotation driver: {j['style']} {j['spec']!r}: {(r.get('error') or r.get('err'))[-800:]}")
+            r.setdefault("k", 9)
+    terms = [acase_term(j, r) for j, r in zip(jobs, res)]
+    bad, errs = core.coq_shards(tag, HEADER, terms, "acase", "abad cases", shard=120)
+    codes = [0] * len(jobs)
+    for i, c in bad:
+        codes[i] = c
+    return res, codes, errors + errs
+
+
+def describe_bg(bg):
+    return "undetermined" if bg is None else "#" + hex6(bg)
+
+
+def alpha_failure(job, r, code):
+    return {
+        "signature": core.sig({"den": "alpha", "spec": job["spec"], "bg": job["bg"] is not None}),
+        "what": (f"format({COQ_STYLE[job['style']]}Image, {job['spec']!r}) on a terminal whose background colour is "
+                 f"{describe_bg(job['bg'])}, image {job['w']} pixels wide with pixels (r,g,b,a) {job['pixels']}: the text "
+                 f"displays {r.get('px')} (null = terminal background shows); same output as the documented-equivalent "
+                 f"specifiers {job['eqs']}: {r.get('same')} — contradicts the documented transparency treatment "
+                 f"('#' bgcolor = the terminal's default background colour, or black if undetermined; check code {code})"),
+        "replay": {"kind": "den-alpha", "job": job, "observed": r, "code": code},
+    }
+
+
+def shrink_alpha(job):
+    """One source pixel (over itself), no style part, while the documentation is still contradicted."""
+    cands = []
+    for p in list(dict.fromkeys(map(tuple, job["pixels"]))):
+        cands.append(dict(job, w=1, pixels=[list(p), list(p)]))
+    res, codes, errs = check_alpha(cands, tag="c19das")
+    if errs:
+        return None
+    hits = [(j, r, c) for j, r, c in zip(cands, res, codes) if 2 <= c < 4]
+    hits.sort(key=lambda x: abs(x[0]["pixels"][0][3] - 128))
+    return hits[0] if hits else None
+
+
+FRAME_CORPUS = [
+    # style, fmt, src, size, width, set_method, rff, spec
+    ("iterm2", "apng", "file", [6, 6], 4, None, None, "1.1+W"),
+    ("iterm2", "webp", "file", [6, 6], 4, None, None, "1.1#.5+Wc9"),
+    ("iterm2", "apng", "file", [6, 6], 4, "whole", None, "<20.^6#"),
+    ("iterm2", "webp", "pil-file", [5, 4], 3, None, None, "+W"),
+    ("iterm2", "apng", "file", [6, 6], 4, None, None, "1.1+A"),
+    ("iterm2", "apng", "file", [6, 6], 4, "anim", None, "1.1"),
+    ("iterm2", "apng", "file", [6, 6], 4, None, None, "1.1+L"),
+    ("iterm2", "gif", "file", [6, 6], 4, None, None, "1.1+W"),
+    ("iterm2", "apng", "file", [6, 6], 4, None, False, "1.1+Wm1"),
+    ("iterm2", "apng", "file", [60, 60], 2, None, None, "1.1+W"),
+    ("kitty", "apng", "file", [6, 6], 3, None, None, "1.1+W"),
+    ("kitty", "webp", "file", [6, 6], 3, None, None, "1.1+Lc9"),
+]
+
+
+def den_frame_jobs(ctx):
+    rng = ctx.rng
+    rows = list(FRAME_CORPUS)
+    for _ in range(6 if ctx.quick else 150):
+        st = rng.choice(["iterm2", "iterm2", "iterm2", "kitty"])
+        fmt = rng.choice(["apng", "webp", "gif"])
+        src = "file" if fmt == "apng" or rng.random() < 0.6 else "pil-file"
+        size = rng.choice([[6, 6], [4, 8], [10, 3], [60, 60], [1, 1]])
+        meths = ["lines", "whole"] + (["anim"] if st == "iterm2" else [])
+        spec = rng.choice(["", "1.1", "<9.^4", ">3"]) + rng.choice(["", "", "#", "##", "#.5", "#102030"])
+        sp = rng.choice(["", "W", "W", "L", "A" if st == "iterm2" else "W"]) + rng.choice(["", "m1", "z3" if st == "kitty" else ""]) \
+            + rng.choice(["", "c0", "c9"])
+        if st == "kitty" and "z" in sp and "m" in sp:     # field order: z before m
+            sp = sp.replace("m1", "")
+        if sp:
+            spec += "+" + sp
+        rows.append((st, fmt, src, size, rng.choice([1, 2, 4]), rng.choice([None, None] + meths),
+                     rng.choice([None, None, False, True]), spec))
+    jobs = []
+    for st, fmt, src, size, width, sm, rff, spec in rows:
+        n = rng.choice([2, 3, 4, 5])
+        seeks = list(range(n))
+        rng.shuffle(seeks)
+        seeks = seeks[:3]
+        if 0 in seeks and seeks[0] == 0 and len(seeks) > 1:
+            seeks = seeks[1:] + [0]
+        if src == "pil-file":
+            seeks.sort()
+        jobs.append({"kind": "frames", "style": st, "fmt": fmt, "n": n, "size": size, "width": width, "src": src,
+                     "set_method": sm, "rff": rff, "spec": spec, "seeks": seeks})
+    return jobs
+
+
+def fcase_term(job, facts, route, o, pos):
+    main = job["spec"].split("+")[0]
+    alpha_float = "#" not in main or "#." in main
+    modeok = facts["mode"] in ("1", "L", "RGB", "HSV", "CMYK") or (alpha_float and facts["mode"] not in ("P", "PA"))
+    src = ("{| s_animated := %s; s_readable := %s; s_fits := %s; s_modeok := %s; s_rff := %s |}" % tuple(
+        COQ_BOOL[int(bool(x))] for x in (facts["animated"], facts["readable"], facts["fits"], modeok, facts["rff"])))
+    trans = "[" + "; ".join("(%s, %s)" % (core.z(a), core.z(b)) for a, b in o.get("trans", [])) + "]" \
+        if o.get("trans") else "(@nil (Z * Z))"
+    return ("{| f_sty := %s; f_spec := %s; f_cur := %d; f_src := %s; f_nframes := %d; f_pos := %d; f_lines := %d; "
+            "f_route := %d; f_kind := %d; f_trans := %s; f_iter_same := %s |}" % (
+                COQ_STYLE[job["style"]], nlist([ord(c) for c in job["spec"]]), facts["method"], src, facts["n_frames"],
+                pos, facts["rendered"][1], route, o["k"], trans, core.z(o.get("iter_same", -1))))
+
+
+def check_frames(jobs, tag="c19df"):
+    """Returns (cases [(job, route, position, observation)], codes, errors)."""
+    if not jobs:
+        return [], [], []
+    res = core.run_impl_parallel("impl_c19den.py", jobs, chunk=max(1, (len(jobs) + core.NCPU - 1) // core.NCPU))
+    cases, terms, errors = [], [], []
+    for j, r in zip(jobs, res):
+        if "error" in r:
+            errors.append(f"denotation driver (frames): {j}: {r['error'][-800:]}")
+            continue
+        for o in r["obs"]:
+            cases.append((j, 0, o["pos"], o))
+            terms.append(fcase_term(j, r["facts"], 0, o, o["pos"]))
+        for i, o in enumerate(r["iter"]):
+            cases.append((j, 1, i, o))
+            terms.append(fcase_term(j, r["facts"], 1, o, i))
+    bad, errs = core.coq_shards(tag, HEADER, terms, "fcase", "fbad cases", shard=200)
+    codes = [0] * len(cases)
+    for i, c in bad:
+        codes[i] = c
+    return cases, codes, errors + errs
+
+
+def frames_failure(job, route, pos, o, code):
+    one = dict(job, seeks=[pos]) if route == 0 else job
+    call = f"format(image, {job['spec']!r}) after image.seek({pos})" if route == 0 else \
+        f"frame {pos} of ImageIterator(image, 1, {job['spec']!r})"
+    return {
+        "signature": core.sig({"den": "frames", "style": job["style"], "spec": job["spec"], "fmt": job["fmt"],
+                               "src": job["src"], "route": route, "nonzero": pos != 0}),
+        "what": (f"{COQ_STYLE[job['style']]}Image on a {job['n']}-frame {job['fmt'].upper()} file ({job['src']}, "
+                 f"{job['size'][0]}x{job['size'][1]} pixels, width={job['width']}, set_render_method={job['set_method']}, "
+                 f"read_from_file={job['rff']}): {call}: outcome {o['k']}, transmitted pictures [frames held, frame shown] = "
+                 f"{o.get('trans')}, equal to the iterator's frame: {o.get('iter_same')} {o.get('exc', '')} — contradicts the "
+                 f"documented style arguments (L / W: current frame only; A: native animation; check code {code})"),
+        "replay": {"kind": "den-frames", "job": one, "route": route, "pos": pos, "observed": o, "code": code},
+    }
+
+
+def den_jobs(ctx):
+    """The cases of part 5 (all randomness is drawn here, in the main thread)."""
+    rp = ctx.replay["replay"] if ctx.replay else None
+    ajobs = [rp["job"]] if rp and rp.get("kind") == "den-alpha" else ([] if rp else den_alpha_jobs(ctx))
+    fjobs = [rp["job"]] if rp and rp.get("kind") == "den-frames" else ([] if rp else den_frame_jobs(ctx))
+    return ajobs, fjobs
+
+
+def den_part(ctx, out, jobs=None):
+    """Part 5.  Returns the set of distinct cases judged."""
+    rp = ctx.replay["replay"] if ctx.replay else None
+    ajobs, fjobs = jobs if jobs is not None else den_jobs(ctx)
+    distinct = set()
+    # (a) transparency
+    res, codes, errs = check_alpha(ajobs)
+    out["errors"] += errs
+    out["evaluations"] += len(ajobs)
+    hist = {}
+    failing = []
+    for j, r, c in zip(ajobs, res, codes):
+        key = (f"{j['style']}, background {'known' if j['bg'] is not None else 'undetermined'}, "
+               f"{'##' if '##' in j['spec'] else 'hex' if re.search('#[0-9a-fA-F]{6}', j['spec']) else 'threshold' if '#.' in j['spec'] else 'disabled' if '#' in j['spec'] else 'default'}")
+        hist[key] = hist.get(key, 0) + 1
+        distinct.add(("a", j["style"], j["spec"], json.dumps(j["bg"]), json.dumps(j["pixels"])))
+        if c >= 4:
+            out["errors"].append(f"ill-formed denotation case (code {c}): {j}")
+        elif c >= 2:
+            failing.append((j, r, c))
+        elif c == 1:
+            out["mismatches"].append({"what": "transparency denotation differs from the implementation model only",
+                                      "job": j, "observed": r})
+    out["histogram"]["denotation_transparency_cases"] = hist
+    failing.sort(key=lambda x: (len(x[0]["spec"]), len(x[0]["pixels"]), x[0]["style"] != "block"))
+    seen = set()
+    for j, r, c in failing:
+        if len(seen) >= 2:
+            break
+        if not ctx.replay and j["style"] == "block":
+            small = shrink_alpha(j)
+            if small:
+                j, r, c = small
+        k = (j["spec"], j["bg"] is None)
+        if k in seen:
+            continue
+        seen.add(k)
+        out["failures"].append(alpha_failure(j, r, c))
+    # (b) frames
+    cases, codes, errs = check_frames(fjobs)
+    out["errors"] += errs
+    out["evaluations"] += len(cases)
+    hist = {}
+    failing = []
+    for (j, route, pos, o), c in zip(cases, codes):
+        if rp and (route != rp.get("route") or pos != rp.get("pos")):
+            continue
+        key = f"{j['style']} {j['fmt']} {j['src']}, {'format' if route == 0 else 'iterator frame'}, position {'0' if pos == 0 else '>0'}"
+        hist[key] = hist.get(key, 0) + 1
+        distinct.add(("f", j["style"], j["spec"], j["fmt"], j["src"], json.dumps(j["size"]), j["width"], j["set_method"], j["rff"], route, pos))
+        if c >= 4:
+            out["errors"].append(f"ill-formed frames case (code {c}): {j}")
+        elif c >= 2:
+            failing.append((j, route, pos, o, c))
+        elif c == 1:
+            out["mismatches"].append({"what": "frames carried differ from the implementation model only",
+                                      "job": j, "route": route, "position": pos, "observed": o})
+    out["histogram"]["denotation_frames_cases"] = hist
+    # simplest first: short specifier, small source; a non-zero position shows a WRONG frame
+    failing.sort(key=lambda x: (len(x[0]["spec"]), x[0]["size"][0] * x[0]["size"][1], x[1], x[2] == 0, x[2]))
+    seen = set()
+    for j, route, pos, o, c in failing:
+        k = (j["style"], j["spec"], route)
+        if k in seen or len(seen) >= 2:
+            continue
+        seen.add(k)
+        out["failures"].append(frames_failure(j, route, pos, o, c))
+    out["extra"]["denotation_failing_cases_seen"] = len(failing)
+    return distinct
+
+
 def run(ctx):
     rng = ctx.rng
     out = {"failures": [], "mismatches": [], "errors": [], "histogram": {}, "extra": {}, "evaluations": 0, "_confirm": []}
@@ -654,7 +965,8 @@ def run(ctx):
     both = [chr(c) for r in reps for c in r]
 
     env_replay = bool(ctx.replay) and ctx.replay["replay"].get("kind") == "env"
-    if env_replay:
+    den_replay = bool(ctx.replay) and str(ctx.replay["replay"].get("kind", "")).startswith("den-")
+    if env_replay or den_replay:
         triples, acc_cases, samples = [], [], []
     elif ctx.replay:
         rp = ctx.replay["replay"]
@@ -763,7 +1075,31 @@ def run(ctx):
         out["failures"].append(failure_of(st, small, tm, o, c))
     out["extra"]["failing_specifiers_seen"] = len(failing)
     # 4. the same interpretation in every process environment
+    # 5. denotation on the output (transparency under a known / undetermined terminal background;
+    #    frames carried for animated file sources) — judged concurrently with part 4
+    den_thread, den_out, den_res = None, None, []
+    if den_replay or not ctx.replay:
+        import threading
+        jobs5 = den_jobs(ctx)
+        den_out = {"failures": [], "mismatches": [], "errors": [], "histogram": {}, "extra": {}, "evaluations": 0}
+
+        def run_den():
+            try:
+                den_res.append(den_part(ctx, den_out, jobs5))
+            except Exception as e:  # noqa: BLE001
+                import traceback
+                den_out["errors"].append("denotation part failed: " + traceback.format_exc()[-1200:])
+        den_thread = threading.Thread(target=run_den)
+        den_thread.start()
     env_distinct = env_part(ctx, out) if (env_replay or not ctx.replay) else set()
+    if den_thread is not None:
+        den_thread.join()
+        for k in ("failures", "mismatches", "errors"):
+            out[k] += den_out[k]
+        out["histogram"].update(den_out["histogram"])
+        out["extra"].update(den_out["extra"])
+        out["evaluations"] += den_out["evaluations"]
+        env_distinct = env_distinct | (den_res[0] if den_res else set())
     if out["extra"].get("outcome_counts_differ_from_documented_grammar") and not out["failures"]:
         out["errors"].append("the numbers of accepted / StyleError / ValueError strings differ from the documented "
                              "grammar's but no individual failing specifier was confirmed")
